@@ -144,7 +144,8 @@ def deathStep (d : DSt) : Ev α → Except String DSt
     if (0 : α) < new then .ok { d1 with limbo := d1.limbo.filter (· != t) }   -- healed: no longer held at zero
     else .ok d1
   | .limbo t held =>
-    if held then .ok { d with limbo := t :: d.limbo.filter (· != t) }
+    if d.dead.contains t then .ok d      -- already announced: it is announced exactly once, whatever is done to it later
+    else if held then .ok { d with limbo := t :: d.limbo.filter (· != t) }
     else .ok { d with pending := t :: d.pending.filter (· != t), limbo := d.limbo.filter (· != t) }
   | .death t k =>
     if d.dead.contains t then .error s!"unit {t} announced dead twice"
@@ -206,7 +207,7 @@ def exitOf (cycles : Int) (x : XSt α) : Option Nat :=
   else if Num.trunc (x.clock / 100) ≥ cycles then some 3
   else none
 
-def exitStep (nchars : Nat) (cycles : Int) (x : XSt α) : Ev α → Except String (XSt α)
+def exitStep (nchars nunits : Nat) (cycles : Int) (x : XSt α) : Ev α → Except String (XSt α)
   | .charsAdded ids => .ok { x with chars := ids }
   | .enemiesAdded ids => .ok { x with enemies := ids }
   | .death t _ => .ok { x with chars := x.chars.filter (· != t), enemies := x.enemies.filter (· != t) }
@@ -231,15 +232,17 @@ def exitStep (nchars : Nat) (cycles : Int) (x : XSt α) : Ev α → Except Strin
           .error "an exit condition held at the exit check of an enemy's phase 1, but the run went on"
         else .ok x
       | .hitEnd _ d total _ =>
-        if 1 ≤ d && d ≤ nchars then .ok { x with taken := x.taken + total } else .ok { x with dealt := x.dealt + total }
+        if 1 ≤ d && d ≤ nchars then .ok { x with taken := x.taken + total }
+        else if 1 ≤ d && d ≤ nunits then .ok { x with dealt := x.dealt + total }
+        else .ok x        -- a hit on something that is not a unit of the battle counts for neither side
       | .insertEnd _ _ _ => .ok { x with afterTask := true }
       | .actionEnd _ _ ins => .ok { x with afterTask := ins }
       | _ => .ok x
 
-def exitRun (nchars : Nat) (cycles : Int) (x : XSt α) : List (Ev α) → Except String (XSt α)
+def exitRun (nchars nunits : Nat) (cycles : Int) (x : XSt α) : List (Ev α) → Except String (XSt α)
   | [] => .ok x
-  | e :: es => match exitStep nchars cycles x e with
-    | .ok x' => exitRun nchars cycles x' es
+  | e :: es => match exitStep nchars nunits cycles x e with
+    | .ok x' => exitRun nchars nunits cycles x' es
     | .error m => .error m
 
 def nonDecreasing : List α → Bool
